@@ -55,6 +55,7 @@ type Behaviour struct {
 	Weak    *WeakHash       `json:"weak,omitempty"`
 	Steps   []M             `json:"steps"`
 	Driver  int             `json:"driver"` // number of code-led driver steps appended to Steps
+	ExportEvery int         `json:"export_every"` // driver behaviours: an ExportImport observation after every k-th driver step
 	Probes  int             `json:"probes"` // after every step: this many driver messages tried on throw-away branches of the state
 
 	weakResolved bool
@@ -179,13 +180,24 @@ func (r *runner) run() {
 	if b.Driver > 0 && b.Family != "data" && b.Family != "intertx" {
 		d := &driver{rng: rand.New(rand.NewSource(b.Seed*7 + 13))}
 		for i := 0; i < b.Driver; i++ {
-			last := r.lines[len(r.lines)-1].St
+			var last *State
+			for j := len(r.lines) - 1; j >= 0 && last == nil; j-- {
+				if r.lines[j].K != "probe" {
+					last = r.lines[j].St
+				}
+			}
 			if last == nil {
 				break
 			}
 			r.step(cloneM(d.next(last)))
 			if r.fatal != "" {
 				return
+			}
+			if b.ExportEvery > 0 && (i+1)%b.ExportEvery == 0 {
+				r.step(M{"type": "ExportImport"})
+				if r.fatal != "" {
+					return
+				}
 			}
 		}
 	}
@@ -291,6 +303,9 @@ func (r *runner) step(m M) {
 	st := r.observe(ob)
 	if typ == "Query" && st != nil {
 		r.queries(ob, int(num(m, "n")), st)
+	}
+	if typ == "Query" && r.b.Family == "data" && r.lastData != nil {
+		r.dataQueries(ob, int(num(m, "n")), r.lastData)
 	}
 	r.lines = append(r.lines, &Line{K: "step", Ev: ev, St: st, Ds: r.lastData, Xs: r.lastX, Ob: ob})
 	if r.b.Probes > 0 && st != nil && typ != "ExportImport" && typ != "Replica" && typ != "Query" {
